@@ -59,7 +59,7 @@ def main():
         pr = per_round[rnd]
         out.append("* round %d: %d changes, %d caught on the first run (by the quick check of the target property or, where the history column says so, of the property the mechanism belongs to), %d after strengthening%s." % (
             rnd, pr["n"], pr["first"], pr["n"] - pr["never"],
-            (" (%d left undetected on purpose: the way they drive the library is outside the listed properties, see their history)" % pr["never"]) if pr["never"] else ""))
+            (" (%d left undetected on purpose: what they need - a way of driving the library or an undocumented spelling - is outside the listed properties, see their history)" % pr["never"]) if pr["never"] else ""))
     out.append("")
     out.append("| change | property | needs, to manifest | caught now by (quick tier, target and neighbours that were tried) | all quick checks that alarm (tools/crossmut.py) | history |")
     out.append("|---|---|---|---|---|---|")
